@@ -199,7 +199,7 @@ func zzH_C15_select_by_fee(t *zzT) {
 	total := 0
 	r := 0
 	anyDropped := false
-	okPrio, okFit := true, true
+	okFit := true
 	for _, i := range fake.picks {
 		s := snd[i]
 		isHead := !dropped[s] && head[s] < len(lists[s]) && lists[s][head[s]] == i
@@ -209,7 +209,7 @@ func zzH_C15_select_by_fee(t *zzT) {
 		}
 		o := 1 - s
 		if !dropped[o] && head[o] < len(lists[o]) {
-			okPrio = t.And(okPrio, zzPrio(txs[i]) >= zzPrio(txs[lists[o][head[o]]]))
+			t.Assert(zzPrio(txs[i]) >= zzPrio(txs[lists[o][head[o]]]), "every candidate has maximal fee priority among the senders' current heads")
 		}
 		okFit = t.And(okFit, txs[i].Size()+total <= maxSize)
 		if fake.vOK[i] && fake.eOK[i] {
@@ -222,7 +222,6 @@ func zzH_C15_select_by_fee(t *zzT) {
 			anyDropped = true
 		}
 	}
-	t.Assert(okPrio, "every candidate has maximal fee priority among the senders' current heads")
 	t.Assert(okFit, "a candidate is only verified when it fits into the remaining size")
 	t.Assert(r == len(res), "the result holds exactly the candidates that verified and executed")
 	t.Assert(total <= maxSize, "total size of the selection <= maxSize")
